@@ -205,13 +205,13 @@ package decoder
 // 2 = the numbering loop of the prefilled form, 3 = the loop that looks for a dependency key, 4 = the numbering
 // loop of the plain form.)
 //@ contract decoder.snippetForBlock (blockType, block, prefillRequiredFields) (result)
-//@   loop 3 iter [C06,C07,name:dependency-key-label-detected] depKey == (old(depKey) || l.IsDepKey)
-//@   loop 1 iter [C06,C07,name:key-label-is-the-final-stop] implies(l.IsDepKey, labels == old(labels) + " \"${0}\"")
-//@   loop 1 iter [C06,C07,name:other-labels-are-plain-text] implies(!l.IsDepKey, labels == old(labels) + (" \"" + (l.Name + "\"")))
+//@   loop 1 iter [C06,C07,name:dependency-key-label-detected] depKey == (old(depKey) || l.IsDepKey)
+//@   loop 2 iter [C06,C07,name:key-label-is-the-final-stop] implies(l.IsDepKey, labels == old(labels) + " \"${0}\"")
+//@   loop 2 iter [C06,C07,name:other-labels-are-plain-text] implies(!l.IsDepKey, labels == old(labels) + (" \"" + (l.Name + "\"")))
 //@   ensures [C06,name:no-body-stop-when-the-key-label-is-completed-first] implies(prefillRequiredFields && depKey, result == blockType + (labels + " {\n}"))
-//@   loop 2 invariant [C06,claim] placeholder == rangeindex + 2
+//@   loop 3 invariant [C06,claim] placeholder == rangeindex + 2
 //@   loop 4 invariant [C06,claim] placeholder == rangeindex + 2
-//@   loop 2 iter [C06,name:every-label-takes-the-next-stop] placeholder == old(placeholder) + 1
+//@   loop 3 iter [C06,name:every-label-takes-the-next-stop] placeholder == old(placeholder) + 1
 //@   loop 4 iter [C06,name:every-label-takes-the-next-stop] placeholder == old(placeholder) + 1
 //@   ensures [C06,name:body-stop-follows-the-last-label] implies(!prefillRequiredFields, placeholder == len(block.Labels) + 1)
 //@   ensures [C06,name:body-stop-follows-the-last-label] implies(prefillRequiredFields && !depKey, placeholder == len(block.Labels) + 1)
